@@ -97,9 +97,32 @@ TEMPLATES = {
                'repeat 2 with {n} from 10 to 20 print {n}',
     'lightvar': 'repeat all as {n} begin print {n} on {n} end',
     'named-field': 'assign {n} 3 printf "{{{n}}} {{}}" {n}',
+    # a variable in every position where the grammar takes a number ...
+    'number-positions':
+        'assign {n} 1 set "Z" zone {n} set "Z" zone 0 {n} set "Z" zone {n} 3 '
+        'set "M" row {n} column {n} set "M" row 0 {n} column 0 {n} '
+        'set "M" column {n} row {n} 2 '
+        'set "M" begin stage row {n} stage column 0 {n} end hue {n} duration {n} '
+        'kelvin {n} repeat {n} print 1 repeat with zi from {n} to 2 print zi '
+        'repeat 2 with zm from 0 to {n} print zm repeat 2 with zm cycle {n} '
+        'print zm if {n} print 2 repeat while {{ {n} < 1 }} break '
+        'define zf with zp zs begin return {{ zp + zs }} end '
+        'print [ zf {n} {n} ] zf {n} 2 time {n} wait print {{ - {n} }} '
+        'println {n} units raw time {n} wait',
+    # ... and a name
+    'name-positions':
+        'assign {n} "A" get {n} on {n} set {n} off {n} and {n} '
+        'repeat in {n} and "B" as zi print zi repeat in "B" and {n} as zi '
+        'begin print zi end assign {n} "G" on group {n} '
+        'repeat in group {n} as zi print zi assign {n} "P" off location {n} '
+        'assign {n} "Z" set {n} zone 1 assign {n} "M" set {n} row 0 '
+        'set {n} begin stage row 1 end',
 }
 DEVICES = [dict(label='A', group='G', location='P'),
-           dict(label='B', group='G', location='P')]
+           dict(label='B', group='G', location='P'),
+           dict(label='Z', group='H', location='P', kind='mz', zones=8),
+           dict(label='M', group='H', location='P', kind='matrix', height=3,
+                width=2)]
 
 
 def compile_listing(text):
@@ -325,7 +348,9 @@ def part_names(ctx):
 
 SPECIAL = ['#', '\\', '{', '}', '[', ']', '(', ')', ' ', '  ', '%', "'", '`',
            ':', '8:00', '*', '-', '\t', 'é', 'ß', '日本', '\\n', '\\\\', 'end',
-           'begin', '{}', '{0}', '#!', '/*', '"'[0:0]]
+           'begin', '{}', '{0}', '#!', '/*', '"'[0:0],
+           # control characters that are not line breaks
+           '\x0b', '\x0c', '\x1c', '\x1d', '\x1e', '\x1f', '\x07', '\xa0']
 
 
 WHOLE = ['{', '}', '[', ']', '(', ')', '-', '+', '*', '/', '%', '^', '#', ':',
